@@ -363,7 +363,7 @@ def run_sampled(crate, harnesses, n=20000, seed=1, timeout=1800):
     env['RUSTFLAGS'] = '--cfg libtw2_verif'
     env['CARGO_TARGET_DIR'] = os.path.join(CACHE, 'replay')
     env['VERIF_SAMPLE'] = '%d:%d' % (n, seed)
-    prefix = os.path.join(VERIF, 'replays', 'sample_')
+    prefix = os.path.join(VERIF, 'replays', 'sample_%s_' % crate)
     os.makedirs(os.path.dirname(prefix), exist_ok=True)
     env['VERIF_SAMPLE_OUT'] = prefix
     env['RUST_BACKTRACE'] = '0'
